@@ -45,6 +45,8 @@ type c15Case struct {
 	MaxWall  float64  `json:"max_wall_s,omitempty"` // only for shapes that wait for a `sleep 5` child
 	ArgsFile string   `json:"args_file,omitempty"`       // file operand (content: "f1\nf2\n") …
 	ArgsN    int      `json:"args_file_repeated,omitempty"` // … given this many times
+	TornOutput bool   `json:"output_fails_once_cancelled,omitempty"` // Config.Output returns io.ErrClosedPipe once the context is cancelled (a connection torn down with the request)
+	TornInput  bool   `json:"stdin_fails_once_cancelled,omitempty"`  // Config.Stdin yields one line per Read and returns io.ErrClosedPipe once the context is cancelled
 }
 
 type c15Res struct {
@@ -113,6 +115,7 @@ func c15NewSession(src string) *c15Session {
 				doCancel()
 			}()
 		},
+		"fail": func() (int, error) { return 0, errors.New("c15: native function failed") },
 		"tick": func() {
 			s.mu.Lock()
 			s.ticks++
@@ -141,6 +144,12 @@ func (s *c15Session) run(cs c15Case) (res c15Res) {
 	}
 	for i := 0; i < cs.ArgsN; i++ {
 		cfg.Args = append(cfg.Args, cs.ArgsFile)
+	}
+	if cs.TornOutput {
+		cfg.Output = &c15TornWriter{s: s, w: &raw}
+	}
+	if cs.TornInput {
+		cfg.Stdin = &c15TornReader{s: s, lines: strings.SplitAfter(cs.Input, "\n")}
 	}
 	s.mu.Lock()
 	s.cancelFn, s.cancelled, s.ticks, s.after = nil, false, 0, 0
@@ -655,6 +664,9 @@ func runC15(c *vh.Ctx) {
 			"system-killed":      `cancel_later(40); r = system("sleep 5"); x = 1/zero`,
 			"runtime-error-deep": `cancel(); for (j = 0; j < 3; j++) for (k in ENVIRON) q++; x = substr("abc", 1/zero)`,
 		}
+		for k, v := range c15MoreSecondary {
+			secondary[k] = v
+		}
 		place := map[string]string{
 			"BEGIN":            `BEGIN { print "p"; %s }`,
 			"BEGIN-func":       `function sec() { %s } BEGIN { print "p"; sec() }`,
@@ -669,15 +681,23 @@ func runC15(c *vh.Ctx) {
 		}
 		var ids []c15Case
 		for _, pk := range vh.SortedKeys(map[string]int{"BEGIN": 0, "BEGIN-func": 0, "pattern": 0, "pattern-range": 0, "action": 0, "action-func": 0, "END": 0, "END-func": 0, "END-after-exit": 0}) {
-			for _, sk := range vh.SortedKeys(map[string]int{"runtime-error": 0, "write-killed-pipe": 0, "getline-killed-cmd": 0, "close-killed-cmd": 0, "system-killed": 0, "runtime-error-deep": 0}) {
-				slow := sk != "runtime-error" && sk != "runtime-error-deep"
+			for _, sk := range c15SortedKeys(secondary) {
+				slow := sk == "write-killed-pipe" || sk == "getline-killed-cmd" || sk == "close-killed-cmd" || sk == "system-killed"
 				if slow && !c.Thorough() && !(strings.HasPrefix(pk, "END") || pk == "action" || pk == "BEGIN") {
 					continue
 				}
-				ids = append(ids, c15Case{Shape: "error-identity:" + pk + ":" + sk, Prog: fmt.Sprintf(place[pk], secondary[sk]), Input: "a\nb\nc\n",
-					Ctx: "live", MustErr: true, Prefix: "p\n", MaxWall: 4, Buffered: len(ids)%2 == 1})
+				id := c15Case{Shape: "error-identity:" + pk + ":" + sk, Prog: fmt.Sprintf(place[pk], secondary[sk]), Input: "a\nb\nc\n",
+					Ctx: "live", MustErr: true, Prefix: "p\n", MaxWall: 4, Buffered: len(ids)%2 == 1}
+				switch sk {
+				case "output-torn-down":
+					id.TornOutput, id.Prefix = true, "" // what sits in a bufio.Writer of the caller when its connection fails is the caller's loss
+				case "stdin-torn-down":
+					id.TornInput = true
+				}
+				ids = append(ids, id)
 			}
 		}
+		ids = append(ids, c15TornMainLoopCases()...)
 		idRes := make([]c15Res, len(ids))
 		for i := range ids {
 			idRes[i] = c15RunGuard(ids[i])
